@@ -99,21 +99,25 @@ def run_case(case):
     wspec, scale, delta, method = case["wspec"], case["scale"], case["delta"], case["method"]
     viol = []
     base = np.array(case["data"], dtype=float) if case.get("data") is not None else sample(src, n, zeros, ties)
-    xs = np.sort(base)
+    if case.get("int_data"):        # observations recorded as integers (whole centimetres, counts): int64 array / list of python ints
+        base = np.round(base * 100).astype(np.int64)
+    xs = np.sort(base).astype(float)
     wref = ref_weights(wspec, xs, scale)
     results = {}
     nfits = 0
     for how in case.get("orders", ORDERS):
         data = order(base, how)
+        if case.get("int_data") == "list" and how == "shuffle1":
+            data = [int(v) for v in data]
         if wspec == "none":
             weights = None
         elif wspec.startswith("arr_"):
-            weights = array_weights(wspec, data, scale)  # weights travel with their observations
+            weights = array_weights(wspec, np.asarray(data, dtype=float), scale)  # weights travel with their observations
             if how == "shuffle2":
                 weights = weights.tolist()               # array_like: a python list of weights
         else:
             weights = wspec
-        data_in = data.copy()
+        data_in = np.array(data)
         w_in = None if not isinstance(weights, (np.ndarray, list)) else np.array(weights, dtype=float)
         dist = ExponentiatedWeibullDistribution(f_delta=delta) if delta is not None else ExponentiatedWeibullDistribution()
         try:
@@ -123,7 +127,7 @@ def run_case(case):
             viol.append({"sig": {"check": "ewlsq", "clause": "exception", "wspec": wspec, "free_delta": delta is None},
                          "detail": {"type": type(e).__name__, "msg": str(e)[:200], "order": how}, "case": case})
             continue
-        if not np.array_equal(data, data_in) or (w_in is not None and not np.array_equal(np.asarray(weights, dtype=float), w_in)):
+        if not np.array_equal(np.array(data), data_in) or (w_in is not None and not np.array_equal(np.asarray(weights, dtype=float), w_in)):
             viol.append({"sig": {"check": "ewlsq", "clause": "input_mutated"}, "detail": {"order": how}, "case": case})
         results[how] = (float(dist.alpha), float(dist.beta), float(dist.delta))
 
@@ -200,6 +204,15 @@ def main(ctx):
         for wspec, delta in (("none", 2.35), ("quadratic", 2.35), ("arr_irregular", 1.0), ("quadratic", None)):
             cases.append({"src": "ew", "n": n, "zeros": n % 3 == 0 and 1 or 0, "ties": n % 2 == 0, "wspec": wspec, "scale": 7.0,
                           "delta": delta, "method": "wlsq"})
+    # integer-typed observations (float weights must stay float, keyword weights must be computed in float)
+    for n in (30, 200):
+        for zeros in (0, 1):
+            for wspec in WSPECS:
+                for scale in ((0.01, 1.0, 7.0) if wspec.startswith("arr_") else (1.0,)):
+                    for delta in (1.0, 2.35, None):
+                        for kind in ("array", "list"):
+                            cases.append({"src": "ew", "n": n, "zeros": zeros, "ties": True, "wspec": wspec, "scale": scale, "delta": delta,
+                                          "method": "wlsq", "int_data": kind})
     # ALL multisets of 3..6 (quick) / 3..7 (thorough) observations over the alphabet {0, 0.5, 1, 2, 3.5} with at least three distinct
     # non-zero values: every pattern of ties and exact zeros in a small sample
     alpha5 = (0.0, 0.5, 1.0, 2.0, 3.5)
